@@ -432,7 +432,8 @@ def work_addresses(job):
             rng = core.job_rng(seed, ID, 'addr', i)
             host = 'b' + ''.join(rng.choice(ADDR_ATOMS) for _ in range(rng.randint(1, 5))) + 'cher.example'
             form = rng.choice(['Write to <info@%s> today.\n', '# Contact <info@%s> #\n\ntext\n', '* item <mailto:info@%s>\n', 'See <http://%s/p?a=1&b=2> here.\n', '| a | <info@%s> |\n|---|---|\n| c | d |\n',
-                               'Cited [p. %s][#foo].\n\n[#foo]: Author. *Title*.\n', 'Again [%s][#foo] and [%s][#foo].\n\n[#foo]: Author.\n'])
+                               'Cited [p. %s][#foo].\n\n[#foo]: Author. *Title*.\n', 'Again [%s][#foo] and [%s][#foo].\n\n[#foo]: Author.\n',
+                               'A brace pair {=%s} that follows no code span is text.\n', 'term [?g]\n\n[?g]: gloss {=%s<} here\n'])
             form = form.replace('[%s][#foo] and [%s]', '[%s][#foo] and [x %s]') if form.count('%s') == 2 else form
             src = (form % ((host,) * form.count('%s'))).encode('utf-8')
             ext = rng.choice([D.EXT_CLI, D.EXT_CLI | D.EXT['OBFUSCATE'], D.EXT_CLI | D.EXT['COMPLETE'], D.EXT_CLI_COMPAT])
